@@ -26,3 +26,34 @@ package acme
 //@ modifies heap
 //@ ensures len(c.nonces) <= max(old(len(c.nonces)), 100)
 //@ ensures len(c.nonces) >= old(len(c.nonces)) && len(c.nonces) <= old(len(c.nonces)) + 1
+
+// Retries of a signed POST: between two attempts the retry timer is always
+// consulted (and may refuse, which ends the loop): the number of requests sent
+// by one call of post is the number of back-off consultations plus one.
+// posts / consulted are ghost counters defined by the two contracts below.
+//@ func (*Client).postNoRetry
+//@ trusted
+//@ note one signed request: not verified here; posts counts the calls (definition of the ghost counter)
+//@ modifies heap
+//@ modifies ghost(c, posts)
+//@ ensures ghost(c, posts) == old(ghost(c, posts)) + 1
+//@ ensures implies(result2 == nil, result0 != nil && result0.Body != nil && result1 != nil)
+
+//@ func (*retryTimer).backoff
+//@ trusted
+//@ note asks RetryBackoff how long to wait and waits (or refuses): not verified here; consulted counts the calls
+//@ modifies heap
+//@ modifies ghost(t, consulted)
+//@ ensures ghost(t, consulted) == old(ghost(t, consulted)) + 1
+
+//@ func (*Client).post
+//@ props C50
+//@ modifies heap
+//@ modifies ghost(c, posts)
+//@ loop 1 invariant ghost(c, posts) - before(ghost(c, posts)) == ghost(retry, consulted) - before(ghost(retry, consulted))
+
+//@ func (*Client).retryTimer
+//@ trusted
+//@ note allocates the retry timer for one request
+//@ fresh result
+//@ ensures result != nil
